@@ -89,12 +89,12 @@ def run(tier):
     record("ReadoutTrace accepts the top half of rows 1,3,5 by probability", not _rejected(_tlc_trace("ReadoutTrace", [ro])))
     record("ReadoutTrace reports a row outside the requested top fraction", _rejected(_tlc_trace("ReadoutTrace", [dict(ro, ids=[1, 5], pids=[1, 5])])))
     record("ReadoutTrace reports a probability belonging to another row", _rejected(_tlc_trace("ReadoutTrace", [dict(ro, pids=[3, 1])])))
-    hd = {"s": [0, 4, 7, 9, 10, 11], "k": 8, "r": [7, 11], "same": [[7, 11]], "rp": [7, 11], "ra": [14, 22], "a": 2, "b": 0, "unchanged": True}
+    hd = {"s": [0, 4, 7, 9, 10, 11], "k": 8, "r": [7, 11], "same": [[7, 11]], "rp": [7, 11], "ra": [14, 22], "a": 2, "b": 0, "unchanged": True, "rf": [7, 11], "ric": [[7, 11]]}
     record("HdiTrace accepts the shortest interval", not _rejected(_tlc_trace("HdiTrace", [hd])))
     record("HdiTrace reports a longer interval with the same count", _rejected(_tlc_trace("HdiTrace", [dict(hd, r=[4, 10], same=[[4, 10]], rp=[4, 10], ra=[8, 20])])))
     record("HdiTrace reports a modified caller array", _rejected(_tlc_trace("HdiTrace", [dict(hd, unchanged=False)])))
     aq = [{"ev": "Init", "ys": [1, -2, 0], "n": 3, "gp_n": 3, "mu_max": 1, "caller_unchanged": True},
-          {"ev": "Add", "y": 5, "n": 4, "gp_n": 4, "last_y": 5, "last_x_ok": True, "mu_max": 5, "caller_unchanged": True}]
+          {"ev": "Add", "y": 5, "n": 4, "gp_n": 4, "last_y": 5, "last_x_ok": True, "errs_aligned": True, "mu_max": 5, "caller_unchanged": True}]
     record("AcquireTrace accepts an add that updates data, model and incumbent", not _rejected(_tlc_trace("AcquireTrace", aq)))
     record("AcquireTrace reports a stale incumbent", _rejected(_tlc_trace("AcquireTrace", [aq[0], dict(aq[1], mu_max=1)])))
     record("AcquireTrace reports a model not refitted to the new point", _rejected(_tlc_trace("AcquireTrace", [aq[0], dict(aq[1], gp_n=3)])))
